@@ -45,6 +45,7 @@ class Check:
         self.assumptions = []
         self.explanation = ""
         self.write_evidence = True
+        self.self_validation = None
 
     # ---- recording ----
     def analysed_body(self, body):
@@ -129,6 +130,7 @@ class Check:
                             for r, v in byrule.items()},
                 "not_decided": self.not_decided,
                 "known_findings": [v["key"] for v, _ in kf],
+                "self_validation": self.self_validation,
             },
             "assumptions": self.assumptions,
             "wall_s": round(wall, 2),
